@@ -80,3 +80,4 @@ def r5(cx):
 @rule("C02", "C02.R6", "sequence counters restart above everything recovered")
 def r6(cx):
     rule_seq_floor_on_open(cx)
+    rule_wal_open_floor(cx)
